@@ -509,13 +509,48 @@ theorem readBranch_total (hT : h.Topo) {pl : Plug π β} {J : β → Prop} (hpl 
   rw [(endBranch_spec hres).builds]
   exact vf.2.2
 
+/-- the builds stored in `rcommits_bparents` and in `bn_map` are builds of the current branch -/
+def VB (st : St β) : Prop := ValsCur st.br.cur st.br.bparents ∧ ∀ e ∈ st.br.bnMap, e.2 ∈ st.br.cur
+
+theorem vb_empty (rp : Repo β) : VB (⟨rp, Br.empty⟩ : St β) :=
+  ⟨by intro k v hl; simp [Br.empty] at hl, by intro e he; simp [Br.empty] at he⟩
+
+theorem finish_vb {pl : Plug π β} {head : Nat} {rel : List Nat} {s s' : St β} {c : Nat} {cm : Commit π}
+    {fr : List Nat} (w : WF h s) (v : VB s) (hQ : ∀ r ∈ fr, r < s.rp.rcs.length)
+    (hf : finish pl head rel s c cm fr = .ok s') : VB s' := by
+  have hcur : ∀ i, isCurBuild s.rp i = true → i ∈ s.br.cur := fun i hi => (w.curIff i).mpr hi
+  cases finish_cases hf with
+  | irrelevant => exact v
+  | plain => exact v
+  | plainMatch => exact v
+  | skip bpar new pb pbs bumps _ _ hfn =>
+    obtain ⟨bpar', new', pb', hfn', hvb, hpb⟩ := findNew_total w.rcPar hcur w.ancKeys v.1 fr hQ
+    rw [hfn] at hfn'; cases hfn'
+    refine ⟨fun k vv hl x hx => hvb k vv hl x hx, ?_⟩
+    intro e he
+    simp only [St.skipBuild] at he ⊢
+    rcases foldl_setAll_vals _ _ _ e he with h1 | h1
+    · exact hpb _ h1
+    · exact v.2 e h1
+  | build bpar new pb pbs bumps bn na _ hfn =>
+    obtain ⟨bpar', new', pb', hfn', hvb, hpb⟩ := findNew_total w.rcPar hcur w.ancKeys v.1 fr hQ
+    rw [hfn] at hfn'; cases hfn'
+    refine ⟨?_, ?_⟩
+    · intro k vv hl x hx
+      simp only [St.addBuild] at hl ⊢
+      exact List.mem_append_left _ (hvb k vv hl x hx)
+    · intro e he
+      simp only [St.addBuild] at he ⊢
+      rcases setAll_vals _ _ _ e he with h1 | h1
+      · rw [h1]; simp
+      · exact List.mem_append_left _ (v.2 e h1)
+
 /-- the builds in the `bn_map` of a finished branch are report commits of the graph -/
 theorem readBranch_bnLt (hT : h.Topo) {pl : Plug π β} {first : Bool} {rp : Repo β}
     (w : WF h ⟨rp, Br.empty⟩) {b : Branch} {rp1 : Repo β} {rb : RBranch β}
     (hr : readBranch h pl first rp b = .ok (rp1, rb)) : ∀ e ∈ rb.bnMap, e.2 < rp1.rcs.length := by
   obtain ⟨hc0, st, rheads, hhc0, hv, he⟩ := readBranch_inv hr
-  have H : VisitHyps h pl b.head (fun s => WF h s ∧
-        (ValsCur s.br.cur s.br.bparents ∧ ∀ e ∈ s.br.bnMap, e.2 ∈ s.br.cur) ∧ ∀ e ∈ s.br.bnMap, e.2 < s.rp.rcs.length)
+  have H : VisitHyps h pl b.head (fun s => WF h s ∧ VB s ∧ ∀ e ∈ s.br.bnMap, e.2 < s.rp.rcs.length)
       (fun s _ acc => ∀ r ∈ acc, r < s.rp.rcs.length)
       (fun s s' => s.rp.rcs.length ≤ s'.rp.rcs.length) (fun _ => True) :=
     { Rrefl := fun _ => Nat.le_refl _
@@ -533,40 +568,12 @@ theorem readBranch_bnLt (hT : h.Topo) {pl : Plug π β} {first : Bool} {rp : Rep
       Hfin := by
         intro rel s c cm fr s' hP _ hcl hcm hQ hf
         obtain ⟨w', hlen⟩ := finish_wf (h := h) hP.1 hQ hcl hcm hf
-        -- VF and the bound on bn_map from the case analysis of `finish`
-        have hcur : ∀ i, isCurBuild s.rp i = true → i ∈ s.br.cur := fun i hi => (hP.1.curIff i).mpr hi
-        have hv' : ValsCur s'.br.cur s'.br.bparents ∧ ∀ e ∈ s'.br.bnMap, e.2 ∈ s'.br.cur := by
-          cases finish_cases hf with
-          | irrelevant => exact hP.2.1
-          | plain => exact hP.2.1
-          | plainMatch => exact hP.2.1
-          | skip bpar new pb pbs bumps _ _ hfn =>
-            obtain ⟨bpar', new', pb', hfn', hvb, hpb⟩ := findNew_total hP.1.rcPar hcur hP.1.ancKeys hP.2.1.1 fr hQ
-            rw [hfn] at hfn'; cases hfn'
-            refine ⟨fun k vv hl x hx => hvb k vv hl x hx, ?_⟩
-            intro e he
-            simp only [St.skipBuild] at he ⊢
-            rcases foldl_setAll_vals _ _ _ e he with h1 | h1
-            · exact hpb _ h1
-            · exact hP.2.1.2 e h1
-          | build bpar new pb pbs bumps bn na _ hfn =>
-            obtain ⟨bpar', new', pb', hfn', hvb, hpb⟩ := findNew_total hP.1.rcPar hcur hP.1.ancKeys hP.2.1.1 fr hQ
-            rw [hfn] at hfn'; cases hfn'
-            refine ⟨?_, ?_⟩
-            · intro k vv hl x hx
-              simp only [St.addBuild] at hl ⊢
-              exact List.mem_append_left _ (hvb k vv hl x hx)
-            · intro e he
-              simp only [St.addBuild] at he ⊢
-              rcases setAll_vals _ _ _ e he with h1 | h1
-              · rw [h1]; simp
-              · exact List.mem_append_left _ (hP.2.1.2 e h1)
+        have hv' : VB s' := finish_vb hP.1 hP.2.1 hQ hf
         refine ⟨⟨w', hv', ?_⟩, hlen⟩
         intro e he
         exact w'.ancLt _ (w'.ancKeys _ (hv'.2 e he)) }
   have hfin := visit_ind hT H h.commits.length ⟨rp, Br.empty⟩ [] [] b.head st rheads
-    ⟨w, ⟨by intro k v hl; simp [Br.empty] at hl, by intro e he; simp [Br.empty] at he⟩, by simp [Br.empty]⟩
-    (by simp) trivial hv
+    ⟨w, vb_empty rp, by simp [Br.empty]⟩ (by simp) trivial hv
   intro e hmem
   rw [endBranch_bnMap he] at hmem
   rw [(endBranch_spec he).rcs]
@@ -639,6 +646,24 @@ theorem rgraph_total (hT : h.Topo) {pl : Plug π β} {J : β → Prop} (hpl : Pl
     (by intro b hb; simp [Repo.empty] at hb) hheads
   exact ⟨{ rcs := rp.rcs, builds := rp.builds, all := rbs,
            branches := rbs.reverse.filter (fun rb => !rb.rbuilds.isEmpty), minTs := mt }, by simp only [rgraph, hr], hJ⟩
+
+/-- the heads of the release branches are heads of refs -/
+theorem heads_of_refs (hrefs : ∀ r ∈ h.refs, r.2 < h.commits.length) :
+    ∀ b ∈ branchesOf h, b.head < h.commits.length := by
+  intro b hb
+  have hb' := (mem_sortBy _ _ _).mp hb
+  simp only [releaseBranches, List.mem_flatMap] at hb'
+  obtain ⟨r, hr, hbr⟩ := hb'
+  have : b.head = r.2 := by
+    simp only [releaseBranch, List.mem_append] at hbr
+    rcases hbr with h1 | h1
+    · split at h1
+      · simp at h1; rw [h1]
+      · cases h1
+    · split at h1
+      · simp at h1; rw [h1]
+      · cases h1
+  rw [this]; exact hrefs r hr
 
 theorem plugTotal_none : PlugTotal (Plug.none : Plug π Unit) (fun _ => True) :=
   ⟨fun _ _ _ _ => ⟨(), rfl, trivial⟩, fun _ _ => ⟨(), rfl⟩⟩
